@@ -211,3 +211,98 @@ func checkArgPanics(e *Env, p *load.Program, fns []*ssa.Function, rule string, s
 	}
 	r.Count("value-dependent panic sites examined (make, Repeat, Grow, Must*, division, array conversion)", n)
 }
+
+// symbolicBound: an index or slice expression whose bound is not a constant but is stated by a dominating comparison of the
+// same values: `x[lo:]` behind `len(x) >= lo` (in any spelling), `x[i]` behind `i < len(x)`, with lo / i non-negative by
+// construction.
+func symbolicBound(in ssa.Instruction) (string, bool) {
+	lenOf := func(v ssa.Value, x ssa.Value) bool {
+		c, ok := v.(*ssa.Call)
+		if !ok {
+			return false
+		}
+		bi, ok := c.Call.Value.(*ssa.Builtin)
+		return ok && bi.Name() == "len" && len(c.Call.Args) == 1 && c.Call.Args[0] == x
+	}
+	// holds(a, op, b): a dominating condition states `a op b` for op in {<, <=}
+	states := func(b *ssa.BasicBlock, isA func(ssa.Value) bool, strict bool, isB func(ssa.Value) bool) bool {
+		for _, cd := range flow.DomConds(b) {
+			cn := flow.Norm(cd)
+			bo, ok := cn.V.(*ssa.BinOp)
+			if !ok {
+				continue
+			}
+			op, X, Y := bo.Op, bo.X, bo.Y
+			if !cn.Pol {
+				switch op {
+				case token.LSS:
+					op = token.GEQ
+				case token.LEQ:
+					op = token.GTR
+				case token.GTR:
+					op = token.LEQ
+				case token.GEQ:
+					op = token.LSS
+				default:
+					continue
+				}
+			}
+			// normalise to A (<|<=) B
+			switch op {
+			case token.GTR:
+				op, X, Y = token.LSS, Y, X
+			case token.GEQ:
+				op, X, Y = token.LEQ, Y, X
+			}
+			if op != token.LSS && op != token.LEQ {
+				continue
+			}
+			if isA(X) && isB(Y) && (op == token.LSS || !strict) {
+				return true
+			}
+		}
+		return false
+	}
+	switch x := in.(type) {
+	case *ssa.Slice:
+		if x.Low == nil || x.High != nil || x.Max != nil {
+			return "", false
+		}
+		if _, isConst := x.Low.(*ssa.Const); isConst {
+			return "", false
+		}
+		if !nonNegative(x.Low, 0) {
+			return "", false
+		}
+		if states(x.Block(), func(v ssa.Value) bool { return v == x.Low }, false, func(v ssa.Value) bool { return lenOf(v, x.X) }) {
+			return "the low bound is non-negative and a dominating comparison states that it does not exceed the length", true
+		}
+	case *ssa.IndexAddr:
+		if nonNegative(x.Index, 0) && states(x.Block(), func(v ssa.Value) bool { return v == x.Index }, true, func(v ssa.Value) bool { return lenOf(v, x.X) }) {
+			return "the index is non-negative and a dominating comparison states that it is below the length", true
+		}
+	case *ssa.Index:
+		if nonNegative(x.Index, 0) && states(x.Block(), func(v ssa.Value) bool { return v == x.Index }, true, func(v ssa.Value) bool { return lenOf(v, x.X) }) {
+			return "the index is non-negative and a dominating comparison states that it is below the length", true
+		}
+	}
+	return "", false
+}
+
+// withCallSites runs f with parameter values resolvable at the static call sites among fns.
+func withCallSites(fns []*ssa.Function, f func()) {
+	sites := map[*ssa.Function][]*ssa.Call{}
+	for _, fn := range fns {
+		for _, ci := range flow.Calls(fn) {
+			if c, ok := ci.(*ssa.Call); ok {
+				if h := c.Call.StaticCallee(); h != nil {
+					sites[h] = append(sites[h], c)
+				}
+			}
+		}
+	}
+	old := callSitesOf
+	callSitesOf = func(g *ssa.Function) []*ssa.Call { return sites[g] }
+	defer func() { callSitesOf = old }()
+	f()
+}
